@@ -70,6 +70,16 @@ pub fn bye<S: Src, V: Visitor, const NS: usize, const L: usize>(s: &mut S, v: &m
     v.visit(s, &b, &c);
 }
 
+/// BYE whose reason was set last, through `reason_owned` (padding and sources set before).
+pub fn bye_owned<S: Src, V: Visitor, const NS: usize, const L: usize>(s: &mut S, v: &mut V, maxpad: u8) {
+    let reason = Text::<L>::draw(s, L);
+    let c = ByeCfg::<NS, L>::draw_with(s, reason);
+    s.assume(c.padding <= maxpad && c.reason.len > 0);
+    let b = c.builder_owned();
+    v.visit(s, &b, &c);
+    core::mem::forget(b);
+}
+
 /// BYE whose reason starts with a symbolic number of two-byte characters.
 pub fn bye_utf8<S: Src, V: Visitor, const NS: usize, const L: usize>(s: &mut S, v: &mut V, maxpad: u8) {
     let reason = Text::<L>::draw_utf8(s, L);
